@@ -15,6 +15,13 @@ import SlimProps.BridgeSem.LeftChild
 import SlimProps.BridgeSem.VLen
 import SlimProps.BridgeSem.ArrayGet
 import SlimProps.BridgeSem.IndexGlue
+import SlimProps.BridgeSem.Extern
+import SlimProps.BridgeSem.VLenGet
+import SlimProps.BridgeSem.LeftChildWhole
+import SlimProps.BridgeSem.GetNode
+import SlimProps.BridgeSem.DescentStep
+import SlimProps.BridgeSem.LeafAccess
+import SlimProps.BridgeSem.MostLoops
 /-
   SlimProps.BridgeSem — tie 1, semantic part: the small pure functions of the Go source, translated
   to Lean on every check run (lean/Generated/Funcs.lean, written by harness/cmd/extract/translate.go
@@ -66,5 +73,28 @@ import SlimProps.BridgeSem.IndexGlue
                   arrayGetBytesStIdx_sem                               (array/base.go, array/int.go)
     IndexGlue     newSlimIndexArgs_sem, newSlimIndex_model, slimIndexGetOffset_sem,
                   slimIndexRangeGetOffset_sem                          (index/index.go)
+
+  WHOLE functions of the query path (`namespace Generated.W` of Funcs.lean: control skeleton, early
+  returns, every nil / index / slice panic as `none`, the session `*querySession` as a record that is
+  returned updated, calls between translated functions; the external functions of openacid/low by the
+  ASSUMED specifications of Generated/GoSem.lean).  Each bridge equates the translated function with
+  the model's function INCLUDING when it panics, under explicit well-formedness / no-`int32`-overflow
+  hypotheses:
+
+    Extern          rank64_sem, rank128_sem, rank128_mk_sem, select32R64_sem, select32R64_bounds, sliceS_sem
+                    (the assumed external semantics = `Bits.rank64 / rank128 / select32R64`, `Slim.sliceBytes`);
+                    the abstraction functions absBitmap / absVLen / absSlim
+    VLenGet         VLenArray_get_sem                                 ((*VLenArray).get = Slim.vlenGet)
+    LeftChildWhole  getLabelIdxOfKeyW_sem, getLeftChildID_sem, getLeftChildID_model
+                                                                      (= labelIdxOfKey, leftChildID)
+    GetNode         initVars_sem, getLeafIndexW_sem, getLeafPrefixW_sem, getNode_sem (= sessionOf: rank64,
+                    Slim.getLeafPrefix, Slim.innerFrom, the prefix block of Slim.getNode), sessionOf_decodes,
+                    getNode_ok (the abstraction relation `Decodes` session ↔ `Node` of Slim.getNode)
+    DescentStep     getNode_getLeftChildID (getNode then getLeftChildID = leftChildID of the model's node),
+                    innerFrom_shape
+    LeafAccess      getIthLeafBytes_sem, bytesCompare_sem, cmpLeafPrefix_sem
+    MostLoops       rightMost_sem, leftMost_sem (the loops `for { …getNode…; break … }` as fuel-recursive
+                    definitions: the model's descent and the Go loop reach the same leaf within the same fuel),
+                    rightMost_loop_sem, leftMost_loop_sem, getNode_inner_data, exSlim_trieFits
 -/
 
